@@ -113,6 +113,30 @@ def constructed(rng):
         for da in (0, 0, 1, -1):
             if abs(a + da) <= M:
                 add(G.fD(sg(rng, a + da), p), G.fD(sg(rng, b), q))
+    # common huge cofactor: x = a * g, y = b * g with b a small number whose decimal period is short (3, 9, 11, 37, 101,
+    # ...): the running remainder of a digit-wise reduction is g * (a * 10^i mod b) and cycles with that period, so
+    # it can repeat (or be a fixed point) before the reduction is complete; g large enough that the dividend cannot
+    # be up-scaled
+    for _ in range(300):
+        b = rng.choice((3, 7, 9, 11, 13, 27, 33, 37, 41, 99, 101, 111, 271, 303, 333, 999, 1001, 9091, 9901, 99999,
+                        rng.randrange(2, 2000)))
+        p = rng.randrange(0, 18)
+        q = rng.randrange(p + 1, 19)
+        k = q - p
+        glo = M // (b * P10[k]) + 1                   # b * g * 10^k > M as well
+        ghi = M // (b * rng.choice((1, 1, 10, 100)))
+        if glo >= ghi:
+            continue
+        g = rng.randrange(glo, ghi + 1)
+        amax = M // g
+        a = rng.randrange(1, min(amax, 50 * b) + 1)
+        if a * g * P10[k] <= M:
+            a = amax - rng.randrange(0, b)
+        add(G.fD(a * g * rng.choice((1, -1)), p), G.fD(b * g * rng.choice((1, -1)), q))
+    # operands at floor(T / 10^k) +- 2 for every primitive-type maximum T, aligned by exactly 10^k
+    for x, y in G.threshold_pairs(rng):
+        if y[0] != 0:
+            add(G.fD(*x), G.fD(*y))
     # integer dividends that cannot be up-scaled, huge divisors (step overflow with an int on the left)
     for _ in range(150):
         q = rng.randrange(1, 19)
